@@ -207,8 +207,17 @@ func (ex *Exec) applyFork(s *State, instr ssa.Value, fork *Fork) []*State {
 			ex.doPanic(t, a.Panic)
 		} else {
 			tf := t.top()
+			ret := a.Ret
+			if lb, ok := ret.(lazyBigSet); ok {
+				if err := ex.store(t, lb.recv.(Ptr), lb.v); err != nil {
+					ex.handleErr(t, err)
+					out = append(out, t)
+					continue
+				}
+				ret = lb.recv
+			}
 			if instr != nil {
-				tf.Locals[instr] = a.Ret
+				tf.Locals[instr] = ret
 			}
 			tf.IP++
 		}
